@@ -116,6 +116,10 @@ func belowStartRule(p *Program, r *Reporter, fns []*ssa.Function) {
 						dead = p.pos(bo.Pos())
 						continue
 					}
+					if sub, isSub := stripConv(x).(*ssa.BinOp); isSub && sub.Op == token.SUB && isUnsignedType(sub.Type()) {
+						dead = p.pos(bo.Pos()) // the difference wraps around before it is converted to a signed type
+						continue
+					}
 					for _, fail := range branchTargets(bo, negWhen, 0) {
 						if isErrorExit(fail) || factsOf(fail.Parent()).errOnly[fail] {
 							good++
@@ -261,8 +265,14 @@ func wholeSecondRule(p *Program, r *Reporter, stateAt *ssa.Function) {
 		args := s.Common().Args
 		arg := args[len(args)-1]
 		rc := roundingCallsInSlice(p, arg)
+		if q := newDepQuery(p, onField("app.ResponseConfig.StartTimeS")); true {
+			q.noParams = true
+			if q.depends(arg, 0) {
+				rc = append(rc, "the configured start time enters the second")
+			}
+		}
 		r.Decide(len(rc) == 0, "E4-FLOORSECOND", shortFn(s.Parent()), "StateAt.arg", p.pos(s.Pos()), "no rounding call in the computation of the second",
-			"the second handed to StateAt is rounded ("+strings.Join(rc, ", ")+"): in the second half of each second the BaseURL already shows the state of the next second", nil)
+			"the second handed to StateAt is not the floored request time ("+strings.Join(rc, ", ")+"): the intervals are shifted against the wall clock", nil)
 	}
 }
 
@@ -1375,5 +1385,271 @@ func sameNumberRule(p *Program, r *Reporter, h *ssa.Function) {
 		}
 		r.Decide(ok, "E4-SAMENUMBER", shortFn(h), "os.Remove.path", p.pos(rmPos), "named by the same record field as the created file",
 			"the file removed when a segment leaves the window is named by "+strings.Join(sortedKeys(rm), ", ")+", the stored files by another field: when incoming and stored numbers differ the wrong file (or none) is deleted", nil)
+	}
+}
+
+// noReopenRule (C20): the critical section of Inc is not opened in the middle: no method reachable from Inc
+// calls Unlock explicitly (Inc releases the mutex by a deferred Unlock at its end). A helper that unlocks
+// for a slow operation and locks again lets other requests in between the elapsed test and the reset.
+func noReopenRule(p *Program, r *Reporter, inc *ssa.Function) {
+	r.Rule("E2-NOREOPEN", "no explicit Unlock of the limiter's mutex in the methods reachable from Inc", 1)
+	n := 0
+	for fn := range staticReach(p, inc) {
+		if fn.Signature.Recv() == nil || !strings.Contains(fn.Signature.Recv().Type().String(), "IPRequestLimiter") {
+			continue
+		}
+		n++
+		bad := ""
+		for _, b := range fn.Blocks {
+			for _, in := range b.Instrs {
+				c, ok := in.(*ssa.Call)
+				if !ok || c.Call.StaticCallee() == nil {
+					continue
+				}
+				switch c.Call.StaticCallee().String() {
+				case "(*sync.Mutex).Unlock", "(*sync.RWMutex).Unlock", "(*sync.RWMutex).RUnlock":
+					bad = p.pos(c.Pos())
+				}
+			}
+		}
+		r.Decide(bad == "", "E2-NOREOPEN", shortFn(fn), "explicit-unlock", p.pos(fn.Pos()), "the mutex is released only by the deferred Unlock",
+			"the mutex is unlocked explicitly at "+bad+" inside the section that counts, compares and resets: other requests run in between and their counts are wiped by the reset", nil)
+	}
+	if n == 0 {
+		r.Broken("no limiter method reachable from Inc")
+	}
+}
+
+// freshPerItemRule (C14): every pattern of a status-code list starts from the defaults: the value appended
+// (or stored) per pattern is created inside the loop over patterns, not carried over from the previous one.
+func freshPerItemRule(p *Program, r *Reporter, fn *ssa.Function, elemSuffix string) {
+	r.Rule("E5-FRESHPERITEM", "each parsed pattern starts from a fresh value (nothing carried over from the previous pattern)", 0)
+	for _, b := range fn.Blocks {
+		for _, in := range b.Instrs {
+			c, ok := in.(*ssa.Call)
+			if !ok {
+				continue
+			}
+			bi, ok := c.Call.Value.(*ssa.Builtin)
+			if !ok || bi.Name() != "append" || !blockInCycle(b) {
+				continue
+			}
+			sl, ok := c.Type().Underlying().(*types.Slice)
+			if !ok || !strings.HasSuffix(sl.Elem().String(), elemSuffix) {
+				continue
+			}
+			// the appended element: stored into the one-element backing array from a load of a variable
+			stale := ""
+			// append(xs, v): the variadic argument is a slice of a one-element array into which v was stored
+			if sl, ok := c.Call.Args[1].(*ssa.Slice); ok {
+				if arr, ok := sl.X.(*ssa.Alloc); ok && arr.Referrers() != nil {
+					for _, ref := range *arr.Referrers() {
+						ia, ok := ref.(*ssa.IndexAddr)
+						if !ok || ia.Referrers() == nil {
+							continue
+						}
+						for _, r2 := range *ia.Referrers() {
+							st, ok := r2.(*ssa.Store)
+							if !ok {
+								continue
+							}
+							if ld, ok := st.Val.(*ssa.UnOp); ok && ld.Op == token.MUL {
+								if al, ok := ld.X.(*ssa.Alloc); ok && !blockInCycle(al.Block()) {
+									stale = p.pos(al.Pos())
+								}
+							}
+						}
+					}
+				}
+			}
+			r.Decide(stale == "", "E5-FRESHPERITEM", shortFn(fn), "append:"+elemSuffix, p.pos(c.Pos()), "the appended value is created inside the loop",
+				"the value appended for each pattern is a variable declared outside the loop ("+stale+"): keys that a later pattern omits keep the previous pattern's values instead of the defaults", nil)
+		}
+	}
+}
+
+// initFlagRule (C18): the init flag of the chunk data is only ever set (to true), and the record is never
+// replaced as a whole inside the parse loop (which would clear the flag after the first chunk).
+func initFlagRule(p *Program, r *Reporter, parse *ssa.Function) {
+	r.Rule("E5-INITFLAG", "the init flag is only set to true, and the chunk record is not replaced as a whole inside the parse loop", 1)
+	n := 0
+	for _, b := range parse.Blocks {
+		for _, in := range b.Instrs {
+			st, ok := in.(*ssa.Store)
+			if !ok {
+				continue
+			}
+			if f, ok := fieldOfAddr(st.Addr); ok && f == "chunkparser.ChunkData.IsInitSegment" {
+				if !blockInCycle(b) {
+					continue // initialisation before the parse loop
+				}
+				n++
+				c, isC := st.Val.(*ssa.Const)
+				r.Decide(isC && c.Value != nil && c.Value.String() == "true", "E5-INITFLAG", shortFn(parse), "store:IsInitSegment", p.pos(st.Pos()), "set to true",
+					"the init flag is assigned something else than true: it no longer means 'a movie box was seen in this stream'", nil)
+			}
+			if al, ok := st.Addr.(*ssa.Alloc); ok && strings.HasSuffix(al.Type().String(), "chunkparser.ChunkData") && blockInCycle(b) {
+				r.Violate("E5-INITFLAG", shortFn(parse), "store:ChunkData", p.pos(st.Pos()), "the chunk record is replaced as a whole inside the parse loop: the init flag is cleared after the first completed chunk although a movie box was seen", nil)
+			}
+		}
+	}
+	if n == 0 {
+		r.Broken("Parse: no store to ChunkData.IsInitSegment")
+	}
+}
+
+// attrOpsRule (C11): the patch operation written for an attribute list matches the list: add <- Added,
+// replace <- Changed, remove <- Removed. Checked at each creation of an operation element inside a loop
+// over one of the three lists (directly, or in a helper that receives the operation name and the list).
+func attrOpsRule(p *Program, r *Reporter, fn *ssa.Function) {
+	r.Rule("E4-ATTROPS", "attribute operations: add from the added, replace from the changed, remove from the removed attributes", 3)
+	want := map[string]string{"add": "patch.attrChange.Added", "replace": "patch.attrChange.Changed", "remove": "patch.attrChange.Removed"}
+	n := 0
+	check := func(op string, list ssa.Value, pos token.Pos, where *ssa.Function) {
+		w, ok := want[op]
+		if !ok {
+			return
+		}
+		got := ""
+		for _, f := range []string{"patch.attrChange.Added", "patch.attrChange.Changed", "patch.attrChange.Removed"} {
+			q := newDepQuery(p, onField(f))
+			q.noParams = true
+			if q.depends(list, 0) {
+				got += f[len("patch.attrChange."):] + " "
+			}
+		}
+		n++
+		r.Decide(strings.TrimSpace(got) == w[len("patch.attrChange."):], "E4-ATTROPS", shortFn(where), "op:"+op, p.pos(pos), "'"+op+"' operations are written for the "+w[len("patch.attrChange."):]+" attributes",
+			"'"+op+"' operations are written for the attributes in "+strings.TrimSpace(got)+", not in "+w[len("patch.attrChange."):]+": the patch removes what it should add (or the reverse)", nil)
+	}
+	for _, cf := range cluster(fn) {
+		for _, b := range cf.Blocks {
+			for _, in := range b.Instrs {
+				c, ok := in.(*ssa.Call)
+				if !ok || c.Call.StaticCallee() == nil || c.Call.StaticCallee().Name() != "CreateElement" || len(c.Call.Args) != 2 {
+					continue
+				}
+				// the list ranged over around this creation: the range loop's slice operand
+				var list ssa.Value
+				for _, cd := range effectiveCDeps(b, true) {
+					if !isLoopTest(cd) {
+						continue
+					}
+					sliceVisitIntra(p, cd.V, func(x ssa.Value) {
+						if cl, ok := x.(*ssa.Call); ok {
+							if bi, ok := cl.Call.Value.(*ssa.Builtin); ok && bi.Name() == "len" {
+								list = cl.Call.Args[0]
+							}
+						}
+					})
+				}
+				if list == nil {
+					continue
+				}
+				if op, ok := constString(c.Call.Args[1]); ok {
+					check(op, list, c.Pos(), cf)
+					continue
+				}
+				// operation name handed in as a parameter: one check per call site of the helper
+				if prm, ok := c.Call.Args[1].(*ssa.Parameter); ok {
+					lp, isPrm := list.(*ssa.Parameter)
+					for _, site := range callsTo(p, cf) {
+						args := site.Common().Args
+						var opArg, listArg ssa.Value
+						for i, q := range cf.Params {
+							if q == prm && i < len(args) {
+								opArg = args[i]
+							}
+							if isPrm && q == lp && i < len(args) {
+								listArg = args[i]
+							}
+						}
+						if opArg == nil || listArg == nil {
+							continue
+						}
+						if op, ok := constString(opArg); ok {
+							check(op, listArg, site.Pos(), site.Parent())
+						}
+					}
+				}
+			}
+		}
+	}
+	if n == 0 {
+		r.Broken("%s: no attribute operation creation inside a loop over an attribute list found", shortFn(fn))
+	}
+}
+
+// encDataRefusalRule (C10): a representation without encryption data (pre-encrypted, or of a type that
+// cannot be encrypted) makes the fragment encryptor fail: the nil side of its test of the encryption data
+// is an error exit. Returning success there serves the stored, pre-encrypted bytes under a DRM URL.
+func encDataRefusalRule(p *Program, r *Reporter) {
+	r.Rule("E5-ENCREFUSE", "the fragment encryptor fails for a representation without encryption data", 1)
+	ef := p.mustFunc(r, pkgApp, "encryptFrags")
+	if ef == nil {
+		return
+	}
+	n := 0
+	for _, cf := range cluster(ef) {
+		for _, b := range cf.Blocks {
+			ifi, ok := b.Instrs[len(b.Instrs)-1].(*ssa.If)
+			if !ok {
+				continue
+			}
+			bo, ok := ifi.Cond.(*ssa.BinOp)
+			if !ok || (bo.Op != token.EQL && bo.Op != token.NEQ) || !isNilConst(bo.Y) {
+				continue
+			}
+			f, ok := loadedField(bo.X)
+			if !ok || f != "app.RepData.encData" {
+				continue
+			}
+			n++
+			nilSide := b.Succs[0]
+			if bo.Op == token.NEQ {
+				nilSide = b.Succs[1]
+			}
+			r.Decide(isErrorExit(nilSide) || factsOf(cf).errOnly[nilSide], "E5-ENCREFUSE", shortFn(cf), "encData==nil", p.pos(bo.Pos()), "the nil side is an error exit",
+				"with no encryption data the encryptor returns without an error: a DRM request for a pre-encrypted (or non-encryptable) representation is answered 200 with bytes that were not encrypted for it", nil)
+		}
+	}
+	if n == 0 {
+		r.Violate("E5-ENCREFUSE", shortFn(ef), "encData==nil", p.pos(ef.Pos()), "the fragment encryptor no longer tests whether the representation has encryption data", nil)
+	}
+}
+
+// offsetArgRule (C02): the offset handed to the availability test is, on every path, the configured
+// availabilityTimeOffset (or the caller's own parameter): no kind of representation gets another offset
+// on the server than the one the MPD declares for it.
+func offsetArgRule(p *Program, r *Reporter) {
+	r.Rule("E4-ATOARG", "the offset argument of the availability test is the configured offset on every path", 3)
+	ctv := p.mustFunc(r, pkgApp, "CheckTimeValidity")
+	if ctv == nil {
+		return
+	}
+	idx := -1
+	for i, prm := range ctv.Params {
+		if prm.Name() == "availabilityTimeOffsetS" {
+			idx = i
+		}
+	}
+	if idx < 0 {
+		r.Broken("CheckTimeValidity has no availabilityTimeOffsetS parameter")
+		return
+	}
+	isAto := func(v ssa.Value) bool {
+		if c, ok := v.(*ssa.Call); ok && c.Call.StaticCallee() != nil && c.Call.StaticCallee().Name() == "getAvailabilityTimeOffsetS" {
+			return true
+		}
+		if _, ok := v.(*ssa.Parameter); ok {
+			return true // handed in by the caller, checked there
+		}
+		f, ok := loadedField(v)
+		return ok && strings.HasPrefix(f, "app.ResponseConfig.AvailabilityTimeOffsetS")
+	}
+	for _, s := range callsTo(p, ctv) {
+		arg := s.Common().Args[idx]
+		r.Decide(allPathsDepends(arg, isAto, map[ssa.Value]bool{}), "E4-ATOARG", shortFn(s.Parent()), "CheckTimeValidity.offset", p.pos(s.Pos()), "the configured offset on every path",
+			"on some path the availability test gets another offset than the configured one (e.g. zero for one kind of representation) while the MPD declares the configured offset for it: the newest declared segment is refused as too early", nil)
 	}
 }
